@@ -1864,9 +1864,9 @@ where
         if self.need_store {
             self.store.add(packet.clone().try_into().unwrap()).unwrap();
         }
+        self.pid_pubcomp.insert(packet_id);
 
         if self.status == ConnectionStatus::Connected {
-            self.pid_pubcomp.insert(packet_id);
             events.push(GenericEvent::RequestSendPacket {
                 packet: packet.into(),
                 release_packet_id_if_send_error: None,
@@ -1900,9 +1900,9 @@ where
         if self.need_store {
             self.store.add(packet.clone().try_into().unwrap()).unwrap();
         }
+        self.pid_pubcomp.insert(packet_id);
 
         if self.status == ConnectionStatus::Connected {
-            self.pid_pubcomp.insert(packet_id);
             events.push(GenericEvent::RequestSendPacket {
                 packet: packet.into(),
                 release_packet_id_if_send_error: None,
